@@ -88,6 +88,10 @@ func (w *world) drawChain(name string, misIssue, shapes bool) *chainEnt {
 	ia := w.ias[r.Choice("chain.ia", len(w.ias))]
 	keys := w.asKeys[ia.String()]
 	key := keys[r.Choice("chain.key", len(keys))]
+	if w.shareKeys && !ia.Equal(ia111) {
+		k111 := w.asKeys[ia111.String()]
+		key = k111[r.Choice("chain.sharedkey", len(k111))]
+	}
 	ca := w.cas[r.Choice("chain.ca", len(w.cas))]
 	nb := max(ca.win.nb, 24*(r.Choice("chain.start", 30)-4))
 	na := nb + 24*[]int{30, 3, 8, 15, 1}[r.Choice("chain.len", 5)]
@@ -108,6 +112,8 @@ func (w *world) drawChain(name string, misIssue, shapes bool) *chainEnt {
 	ch := w.newChain(name, ia, key, ca, window{nb, na}, defect)
 	w.chains = append(w.chains, ch)
 	r.Logf("chain %s ia=%s key=%s ca=%s valid %v defect=%q fp=%s", ch.name, ia, key.name, ca.name, ch.asWin, ch.defect, fp(ch.certs))
+	w.sample.CAs = len(w.cas)
+	w.sample.Chains = append(w.sample.Chains, fmt.Sprintf("%s %s ca=%s(%s) valid %v defect=%q", ch.name, ia, ca.name, ca.root.name, ch.asWin, ch.defect))
 	return ch
 }
 
